@@ -703,9 +703,14 @@ impl File {
         if self.is_generated
             && (!self.is_failed(v) || !newstamp.is_missing())
             && !self.is_override
-            && self.stamp.as_ref() == Some(&newstamp)
+            && self
+                .stamp
+                .as_ref()
+                .map_or(false, |s| !Stamp::detect_override(s, &newstamp))
         {
-            // Target is as we left it.
+            // Target is as we left it, as far as the builder's own test can tell:
+            // a difference that is not a manual override (mode, owner, inode) makes
+            // the builder rebuild the file, so it is still a target, not a source.
             return Ok(false);
         }
         if (!self.is_generated || self.stamp.as_ref() != Some(&newstamp)) && newstamp.is_missing() {
